@@ -1,6 +1,8 @@
 """C12 - concurrent evaluations sharing a cache (only the 'never served before finished' clause)."""
 from . import cachefam as F
 
+from . import extra as X
+
 EXPLANATION = ("There is no lock anywhere in cache.py/context.py, so serialisability over interleavings is NOT decided "
                "(model-checking territory). Decided: the structural clause behind 'an entry that another evaluation is "
                "still producing is never served as a finished result' - (a) per back-end the data is published before/"
@@ -16,3 +18,5 @@ def run(chk):
     F.rule_data_presence_witness(chk, chk.repo, "C12.1b")
     F.rule_backend_refuses_errors(chk, chk.repo, "C12.1c")
     F.rule_memory_copy(chk, chk.repo, "C12.2")
+    X.rule_replace_after_close(chk, "C12.3", concurrency=True)
+    X.rule_store_failure_contained(chk, "C12.4")
